@@ -13,11 +13,11 @@ CHECKS = {
   "At every state of the generated histories Pollard and MapPollard (full/partial) are asked for singletons, the full set, all subsets of small forests and random subsets in random request order; targets, proof hashes, cross-implementation identity, acceptance by every verifier and Verify's root indexes are compared with the reference model's canonical proof.",
   ORACLE),
  "C03": ("exploration", "runtime monitoring: truth oracle (reference-model node map) over exhaustive small-alphabet claims and structured mutation of honest proofs",
-  "Every claim accepted by Verify, Pollard.Verify, MapPollard.Verify or MapPollard.VerifyPartialProof is checked against the reference model's position->hash map: exhaustively over a small alphabet of targets/hashes/proofs for small forests and by structured mutation of honest proofs on larger ones; an accepted false claim is a violation.",
+  "Every claim accepted by Verify, Pollard.Verify, MapPollard.Verify or MapPollard.VerifyPartialProof is checked against the reference model's position->hash map: exhaustively over a small alphabet of targets/hashes/proofs for small forests, by structured mutation of honest proofs on larger ones, and after undo/remember/prune/refused calls with honest claims of earlier states; an accepted false claim is a violation.",
   ORACLE + " Violations matching the recorded open findings (root candidate matched against a root of another tree; duplicated target used as its own sibling) are reported as KNOWN-FINDING."),
  "C04": ("exploration", "runtime monitoring: hostile-input workload in child processes with panic capture, logical step budget (hook) and state comparison",
   "Adversarial (hashes, targets, proof) triples - targets up to 2^64-1, duplicates, mismatched lengths, empty and oversized proofs - are thrown at Verify, Stump.Update, Pollard.Verify, MapPollard.Verify, VerifyPartialProof and GetMissingPositions in child processes; a panic, a call exceeding the logical step budget counted at the calcHashes hook (or the wall-clock backstop), or a rejected Stump.Update that changed roots/leaf count is a violation.",
-  "Termination is judged by a hook-counted step budget polynomial in the input size, with a generous wall-clock watchdog as backstop only; covers only the inputs generated."),
+  "Termination is judged by a hook-counted step budget polynomial in the input size, with a generous wall-clock watchdog as backstop only; remembering entry points are driven on throw-away copies; covers only the inputs generated (synthetic stumps up to 2^64-1 leaves)."),
  "C05": ("exploration", "runtime monitoring: reference-model oracle over re-encoded accepted proofs",
   "Each block's honest proof is re-encoded (permuted pairs, trailing junk hashes, AddProof/GetProofSubset assemblies, updated cached proofs); every encoding Verify accepts is applied to Stump, Pollard and MapPollard (full/partial, several TotalRows) and the resulting roots/leaf count are compared with the reference model.",
   ORACLE),
@@ -40,10 +40,10 @@ CHECKS = {
   "Every field of the UpdateData returned by Stump.Update (PrevNumLeaves, ToDestroy order, NewDel hashes/positions, NewAdd hashes/positions) is compared with the value the reference model derives independently, over the enumerated small scope and seeded histories.",
   ORACLE),
  "C12": ("exploration", "runtime monitoring: Go race detector over concurrent reader/writer workloads + porcupine linearizability check of histories recorded while the writer is suspended at hook sites",
-  "Built with -race and the verif hooks: readers of every query kind run against a writer executing Modify/Undo/Ingest/Prune/Verify(remember)/Read; race-detector reports are de-duplicated by entry-point pair; at each pause site inside the writer's critical section the recorded call/return history is checked with porcupine against per-block reference states so a query that saw a half-applied block is Illegal; deadlocks and panics are caught by join watchdogs.",
+  "Built with -race and the verif hooks: readers of every query kind (short and long requests, incl. concurrent remembering verifiers on full forests) run against a writer executing Modify/Undo/Ingest/Prune/Verify(remember)/Read (succeeding and failing); race-detector reports are de-duplicated by entry-point pair; at each of ten pause sites (inside the writer's critical section, inside Write, inside a concurrent verifier) the recorded call/return history is checked with porcupine against per-block reference states so a query that saw a half-applied block is Illegal; deadlocks and panics are caught by join watchdogs.",
   "Covers only the interleavings produced (forced pauses at hooked sites plus free-running schedules); the Go scheduler is not controllable and rr is unavailable."),
  "C13": ("fault_enumeration", "runtime monitoring with fault injection: every truncation offset, every writer failure offset and six reader chunkings per serialized state",
-  "For each sampled end state of Pollard, full and partial MapPollard the stream is restored through every reader chunking, from every strict prefix and written to sinks failing at every offset; restored instances are compared observationally with the original (and evolved further), byte counts and SerializeSize are checked, and silent acceptance of a damaged stream or a panic is a violation.",
+  "For each sampled end state of Pollard, full and partial MapPollard (small, tens-of-KB and from-roots forests up to 2^63 leaves) the stream is restored through every reader chunking, from every strict prefix and written to sinks failing at every offset; restored instances are compared observationally with the original (and evolved further), byte counts and SerializeSize are checked, and silent acceptance of a damaged stream or a panic is a violation.",
   "The fault space is enumerated completely per state; the states themselves are sampled. In-process io.Reader/io.Writer faults (the library does no system calls)."),
  "C14": ("exploration", "runtime monitoring: canonical-proof oracle for AddProof/GetProofSubset/GetMissingPositions/VerifyPartialProof",
   "At states of generated histories pairs of target sets (overlapping, disjoint, nested, cross-tree; sorted and prover order) are combined, restricted and completed; results are compared with the reference model's canonical proofs and missing-position sets, error/no-error with coverage, and the completed partial proofs must verify (and fail when one supplied hash is corrupted).",
